@@ -2,4 +2,5 @@ open Model
 let table : (string * (z list -> z list)) list = [
   ("plc", run_plc);
   ("logix", run_logix);
+  ("tnet", run_tnet);
 ]
